@@ -1,5 +1,64 @@
-(* C15 -- placeholder until Proofs/C15.v lands. *)
-From GV Require Import Base.Prelude Model.C01 Model.C15.
-Theorem C15_to_displacements_idem : forall D t, to_displacements D (to_displacements D t) = to_displacements D t.
-Proof. intros D t. unfold to_displacements. destruct (t_mode t) eqn:E; cbn [t_mode]; [reflexivity|]. rewrite E. reflexivity. Qed.
-Print Assumptions C15_to_displacements_idem.
+(* C15 -- property theorems only.  [abs] = the wrapped positions of every frame; [wf] is the
+   representation invariant (Proofs/C15.v); it holds for every object the API creates
+   (wf_new, slice_new, filter_new) and is preserved by every operation. *)
+From GV Require Import Base.Prelude Model.C01 Model.C15 Proofs.C15.
+
+(* switching the internal representation never changes the data *)
+Theorem C15_abs_to_positions : forall D t, abs D (to_positions D t) = abs D t.
+Proof. first [exact abs_to_positions | intros; eapply abs_to_positions; eauto]. Qed.
+Print Assumptions C15_abs_to_positions.
+Theorem C15_abs_to_displacements : forall D t, 0 < D -> wf D t -> abs D (to_displacements D t) = abs D t.
+Proof. first [exact abs_to_displacements | intros; eapply abs_to_displacements; eauto]. Qed.
+Print Assumptions C15_abs_to_displacements.
+
+(* no sequence of read-only operations (queries, slices, filters -- which also create new
+   objects) changes the abstraction of any existing object *)
+Theorem C15_read_only_sequences : forall D ops s s' rs, 0 < D ->
+  forallb read_only ops = true -> Forall (wf D) s -> run D s ops = (s', rs) ->
+  Forall (wf D) s' /\ (length s <= length s')%nat /\
+  forall k, (k < length s)%nat -> abs D (nth k s' dummy) = abs D (nth k s dummy).
+Proof. intros D ops s s' rs HD Hro Hwf Hrun. eapply run_read_only; eauto. Qed.
+Print Assumptions C15_read_only_sequences.
+
+(* ... hence no later query returns something different *)
+Theorem C15_query_pos_is_abs : forall D s i,
+  step D s (QPos i) = (set_nth s i (to_positions D (nth i s dummy)), RVal (abs D (nth i s dummy))).
+Proof. first [exact query_pos | intros; eapply query_pos; eauto]. Qed.
+Print Assumptions C15_query_pos_is_abs.
+Theorem C15_query_disp_is_spec : forall D s i, 0 < D -> let t := nth i s dummy in wf D t ->
+  frames_no_tie D (abs D t) = true ->
+  step D s (QDisp i) = (set_nth s i (to_displacements D t), RVal (spec_disp D (abs D t))).
+Proof. first [exact query_disp | intros; eapply query_disp; eauto]. Qed.
+Print Assumptions C15_query_disp_is_spec.
+Theorem C15_query_cum_is_spec : forall D s i, 0 < D -> let t := nth i s dummy in wf D t ->
+  frames_no_tie D (abs D t) = true ->
+  step D s (QCum i) = (set_nth s i (to_displacements D t), RVal (spec_cum D (abs D t))).
+Proof. first [exact query_cum | intros; eapply query_cum; eauto]. Qed.
+Print Assumptions C15_query_cum_is_spec.
+
+(* derived trajectories contain exactly the corresponding frames / atoms of the source *)
+Theorem C15_slice : forall D s i a b c s' v, Forall (wf D) s ->
+  step D s (OSlice i a b c) = (s', RVal v) ->
+  let t := nth i s dummy in
+  exists idx new, py_slice a b c (length (abs D t)) = Some idx /\
+    (forall k, In k idx -> 0 <= k < Z.of_nat (length (abs D t))) /\
+    v = select [] (abs D t) idx /\ s' = set_nth s i (to_positions D t) ++ [new] /\
+    last s' dummy = new /\ abs D new = v /\ wf D new.
+Proof. first [exact slice_new | intros; eapply slice_new; eauto]. Qed.
+Print Assumptions C15_slice.
+Theorem C15_extend : forall D s i j s' r, (i < length s)%nat -> step D s (OExtend i j) = (s', r) ->
+  length s' = length s /\ r = RNone /\
+  abs D (nth i s' dummy) = abs D (nth i s dummy) ++ abs D (nth j s dummy) /\
+  forall k, k <> i -> abs D (nth k s' dummy) = abs D (nth k s dummy).
+Proof. first [exact extend_abs | intros; eapply extend_abs; eauto]. Qed.
+Print Assumptions C15_extend.
+
+(* Python slice semantics: every produced index is a valid frame index *)
+Theorem C15_py_slice_valid : forall start stop step len idx,
+  py_slice start stop step len = Some idx -> forall i, In i idx -> 0 <= i < Z.of_nat len.
+Proof. first [exact py_slice_valid | intros; eapply py_slice_valid; eauto]. Qed.
+Print Assumptions C15_py_slice_valid.
+Theorem C15_py_slice_plain : forall a b len, 0 <= a <= b -> b <= Z.of_nat len ->
+  py_slice (Some a) (Some b) None len = Some (zrange a (Z.to_nat (b - a))).
+Proof. first [exact py_slice_plain | intros; eapply py_slice_plain; eauto]. Qed.
+Print Assumptions C15_py_slice_plain.
